@@ -49,7 +49,7 @@ def _shard(arg):
             for it, refs, gots in zip(sub, res.ref, res.got):
                 feats = set(it["meta"]["features"])
                 for c, r, g in zip(it["cases"], refs, gots):
-                    nt = len(feats & FEATURE_CLASSES) >= 2 and (r[0] == "exc" or r[1] != ["None"])
+                    nt = len(feats & FEATURE_CLASSES) >= 2 and (r[0] == "exc" or (r[0] == "ok" and r[1] != ["None"]))
                     part.case([it["src"], c["expr"]], nt, ["outcome:" + r[0]] + ["feat:" + f for f in feats],
                               sample={"src": it["src"], "call": c["expr"], "cpython": diffmod.json_short(r), "compiled": diffmod.json_short(g)})
                     cls = diffmod.compare(r, g, "full")
